@@ -268,6 +268,7 @@ def trees(tier):
         t = keep + S.D3flow()[:8]
     else:
         t += S.D3_quick() + S.D3flow()
+    t += [x for x in S.DX() if ok(x)]
     seen, out = set(), []
     for s in t:
         k = S.key(s)
